@@ -794,11 +794,11 @@ Print Assumptions C02_apply_scaling.
    coarse solve of c*A are those of A on f/c.  kind_scalable: every row has a non-zero (first,
    resp. last) diagonal entry (Jacobi, Gauss-Seidel), no row has squared norm zero (SPAI-0). *)
 Theorem C02_std_smoothers_scale {S : Scalar} (Sft : Sfield S) (Seqb : seqb_spec S) (c : S) (Hc : c <> s0)
-  (Habs2 : forall v : S, sabs v * sabs v = v * v) (k : @relax_kind S) (A : crs S) :
+  (Habs2 : forall v : S, sabs v * sabs v = v * v) (Hadj : forall v : S, sadj v = v) (k : @relax_kind S) (A : crs S) :
   wf A = true -> kind_scalable k A ->
   sweep_sim (sinv c) (nrows A) (fst (mk_relax_std k (mscale A c))) (fst (mk_relax_std k A)) /\
   sweep_sim (sinv c) (nrows A) (snd (mk_relax_std k (mscale A c))) (snd (mk_relax_std k A)).
-Proof. exact (mk_relax_std_sim Sft Seqb c Hc Habs2 k A). Qed.
+Proof. exact (mk_relax_std_sim Sft Seqb c Hc Habs2 Hadj k A). Qed.
 Print Assumptions C02_std_smoothers_scale.
 
 Theorem C02_exact_solve_scales {S : Scalar} (Sft : Sfield S) (Seqb : seqb_spec S) (c : S) (Hc : c <> s0)
@@ -811,7 +811,7 @@ Print Assumptions C02_exact_solve_scales.
    operators ts, same parameters), any cycle shape, pre_cycles >= 1:
        B(c M) f = (1/c) * B(M) f *)
 Theorem C02_built_apply_scaling {S : Scalar} (Sft : Sfield S) (Seqb : seqb_spec S) (c : S) (Hc : c <> s0)
-  (Habs2 : forall v : S, sabs v * sabs v = v * v)
+  (Habs2 : forall v : S, sabs v * sabs v = v * v) (Hadj : forall v : S, sadj v = v)
   k ce dc ml sc ts (M : crs S) npre npost ncycle pc :
   let ls := amg_init ce dc ml (coarse_op_of sc) ts M in
   let ls' := amg_init ce dc ml (coarse_op_of sc) ts (mscale M c) in
@@ -822,7 +822,7 @@ Theorem C02_built_apply_scaling {S : Scalar} (Sft : Sfield S) (Seqb : seqb_spec 
   length f = nrows M -> length x = nrows M -> length x' = nrows M ->
   fst (apply npre npost ncycle (Datatypes.S pc) (std_levels k ls') scr' f x') =
   vsc (sinv c) (fst (apply npre npost ncycle (Datatypes.S pc) (std_levels k ls) scr f x)).
-Proof. exact (built_apply_scaled Sft Seqb c Hc Habs2 k ce dc ml sc ts M npre npost ncycle pc). Qed.
+Proof. exact (built_apply_scaled Sft Seqb c Hc Habs2 Hadj k ce dc ml sc ts M npre npost ncycle pc). Qed.
 Print Assumptions C02_built_apply_scaling.
 
 Theorem C02_built_apply_scaling_Qc (c : T QcS) (Hc : c <> s0)
@@ -836,7 +836,7 @@ Theorem C02_built_apply_scaling_Qc (c : T QcS) (Hc : c <> s0)
   length f = nrows M -> length x = nrows M -> length x' = nrows M ->
   fst (apply npre npost ncycle (Datatypes.S pc) (std_levels k ls') scr' f x') =
   vsc (sinv c) (fst (apply npre npost ncycle (Datatypes.S pc) (std_levels k ls) scr f x)).
-Proof. exact (built_apply_scaled QcS_field QcS_eqb c Hc QcS_abs2 k ce dc ml sc ts M npre npost ncycle pc). Qed.
+Proof. exact (built_apply_scaled QcS_field QcS_eqb c Hc QcS_abs2 QcS_sadj_id k ce dc ml sc ts M npre npost ncycle pc). Qed.
 Print Assumptions C02_built_apply_scaling_Qc.
 
 (* non-vacuity: the side conditions hold on the concrete 3-level hierarchies (Jacobi, SPAI-0,
@@ -945,13 +945,13 @@ Print Assumptions C02_jacobi_energy_wdd.
 
 (* SPAI-0 (no parameter): strict decrease on every weakly dominant matrix without duplicate columns *)
 Theorem C02_spai0_energy {S : Scalar} (Sft : Sfield S) (Seqb : seqb_spec S) (Ord : ordered S)
-  (Habs2 : forall v : S, sabs v * sabs v = v * v) (A : crs S) :
+  (Habs2 : forall v : S, sabs v * sabs v = v * v) (Hadj : forall v : S, sadj v = v) (A : crs S) :
   wf A = true -> wdd (nrows A) A -> rows_nodup A ->
   let sw := fun rhs x t => spai0_sweep (spai0_setup A) A rhs x t in
   it_dec (nrows A) A (sm (nrows A) sw) /\ it_sdec (nrows A) A (sm (nrows A) sw).
 Proof.
-  exact (fun WA HW Hn => conj (spai0_w_dec Sft Seqb Ord Habs2 A WA HW Hn)
-                              (spai0_w_sdec Sft Seqb Ord Habs2 A WA HW Hn)).
+  exact (fun WA HW Hn => conj (spai0_w_dec Sft Seqb Ord Habs2 Hadj A WA HW Hn)
+                              (spai0_w_sdec Sft Seqb Ord Habs2 Hadj A WA HW Hn)).
 Qed.
 Print Assumptions C02_spai0_energy.
 
@@ -969,15 +969,15 @@ Print Assumptions C02_error_operator_eigenvalues.
    (Jacobi: wdd, first diagonal entry = dense diagonal, 0 < w <= 1; SPAI-0: wdd, no duplicate columns;
    Gauss-Seidel: one positive diagonal entry per row, A positive semi-definite), R = P^T *)
 Theorem C02_built_hierarchy_energy_wdd {S : Scalar} (Sft : Sfield S) (Seqb : seqb_spec S) (Ord : ordered S)
-  (Habs2 : forall v : S, sabs v * sabs v = v * v) k (ls : list (@ldesc S)) :
+  (Habs2 : forall v : S, sabs v * sabs v = v * v) (Hadj : forall v : S, sadj v = v) k (ls : list (@ldesc S)) :
   chain (@galerkin S) ls -> descs_ok k ls -> hier_dec (std_levels k ls).
-Proof. exact (chain_hier_dec2 Sft Seqb Ord Habs2 k ls). Qed.
+Proof. exact (chain_hier_dec2 Sft Seqb Ord Habs2 Hadj k ls). Qed.
 Print Assumptions C02_built_hierarchy_energy_wdd.
 
 (* B1 closed, second form: (1) <A Bg,Bg> < 2 <g,Bg> and <Bg,g> > 0 for g <> 0; (2) one cycle strictly
    decreases the energy whenever the residual is non-zero; (3) eigenvalues of I - BA in (-1, 1) *)
 Theorem C02_built_contracts_wdd {S : Scalar} (Sft : Sfield S) (Seqb : seqb_spec S) (Ord : ordered S)
-  (Habs2 : forall v : S, sabs v * sabs v = v * v) kd ce dc ml ts (M : crs S) k nc pc :
+  (Habs2 : forall v : S, sabs v * sabs v = v * v) (Hadj : forall v : S, sadj v = v) kd ce dc ml ts (M : crs S) k nc pc :
   let ls := amg_init ce dc ml (@galerkin S) ts M in
   descs_ok kd ls -> top_strict_desc kd ls -> top_smoothed ls ->
   let lvls := std_levels kd ls in
@@ -992,13 +992,13 @@ Theorem C02_built_contracts_wdd {S : Scalar} (Sft : Sfield S) (Seqb : seqb_spec 
      (forall i, i < nrows M ->
         vget (Cyc (Datatypes.S k) (Datatypes.S nc) lvls (z (nrows M)) e) i = lam * vget e i) ->
      olt (lam * lam) s1).
-Proof. exact (built_contracts2 Sft Seqb Ord Habs2 kd ce dc ml ts M k nc pc). Qed.
+Proof. exact (built_contracts2 Sft Seqb Ord Habs2 Hadj kd ce dc ml ts M k nc pc). Qed.
 Print Assumptions C02_built_contracts_wdd.
 
 (* Gauss-Seidel multigrid on ANY symmetric positive definite matrix: hypotheses on the inputs only
    (M symmetric, <M x,x> > 0 for x <> 0, no duplicate columns; R = P^T, P injective) *)
 Theorem C02_gs_contracts_spd {S : Scalar} (Sft : Sfield S) (Seqb : seqb_spec S) (Ord : ordered S)
-  (Habs2 : forall v : S, sabs v * sabs v = v * v) ce dc ml ts (M : crs S) k nc pc :
+  (Habs2 : forall v : S, sabs v * sabs v = v * v) (Hadj : forall v : S, sadj v = v) ce dc ml ts (M : crs S) k nc pc :
   wf M = true -> sym_mat (nrows M) M -> pd M -> rows_nodup M -> ts_spd (nrows M) ts ->
   let ls := amg_init ce dc ml (@galerkin S) ts M in
   top_smoothed ls ->
@@ -1014,7 +1014,7 @@ Theorem C02_gs_contracts_spd {S : Scalar} (Sft : Sfield S) (Seqb : seqb_spec S) 
      (forall i, i < nrows M ->
         vget (Cyc (Datatypes.S k) (Datatypes.S nc) lvls (z (nrows M)) e) i = lam * vget e i) ->
      olt (lam * lam) s1).
-Proof. exact (built_contracts_gs_spd Sft Seqb Ord Habs2 ce dc ml ts M k nc pc). Qed.
+Proof. exact (built_contracts_gs_spd Sft Seqb Ord Habs2 Hadj ce dc ml ts M k nc pc). Qed.
 Print Assumptions C02_gs_contracts_spd.
 
 (* closed at the exact rationals on the concrete 3-level hierarchy (1-D Poisson n = 4, two pairwise
@@ -1032,7 +1032,7 @@ Theorem C02_apply_contracts_default_Qc (kd : @relax_kind QcS) k nc pc :
 Proof.
   intros Hk lvls scr g x Hs Lg Lx Hg.
   assert (Hd : descs_ok kd exH).
-  { apply (descs_okb_ok QcS_field QcS_eqb QcS_ordered QcS_abs2).
+  { apply (descs_okb_ok QcS_field QcS_eqb QcS_ordered QcS_abs2 QcS_sadj_id).
     destruct Hk as [->|[->|[->| ->]]]; vm_compute; reflexivity. }
   assert (Ht : top_strict_desc kd exH).
   { destruct Hk as [->|[->|[->| ->]]]; cbn.
@@ -1040,7 +1040,7 @@ Proof.
     - right. apply (iddb_ok QcS_eqb). vm_compute. reflexivity.
     - exact I.
     - exact I. }
-  destruct (built_contracts2 QcS_field QcS_eqb QcS_ordered QcS_abs2 kd 1 true 10 exTs exM k nc pc Hd Ht I)
+  destruct (built_contracts2 QcS_field QcS_eqb QcS_ordered QcS_abs2 QcS_sadj_id kd 1 true 10 exTs exM k nc pc Hd Ht I)
     as (H & _).
   apply H; assumption.
 Qed.
@@ -1087,7 +1087,7 @@ Qed.
 Print Assumptions C02_vcycle_positive_definite.
 
 Theorem C02_built_vcycle_positive_definite {S : Scalar} (Sft : Sfield S) (Seqb : seqb_spec S) (Ord : ordered S)
-  (Habs2 : forall v : S, sabs v * sabs v = v * v) kd ce dc ml sc ts (M : crs S) k :
+  (Habs2 : forall v : S, sabs v * sabs v = v * v) (Hadj : forall v : S, sadj v = v) kd ce dc ml sc ts (M : crs S) k :
   let ls := amg_init ce dc ml (coarse_op_of sc) ts M in
   wf M = true -> sym_mat (nrows M) M -> ts_sym (nrows M) ts ->
   (forall A, In (LSolve A) ls -> solvable A = true) ->
@@ -1096,7 +1096,7 @@ Theorem C02_built_vcycle_positive_definite {S : Scalar} (Sft : Sfield S) (Seqb :
   forall scr g x, scratch_wf lvls scr -> length g = nrows M -> length x = nrows M ->
   g <> vzero (nrows M) ->
   olt s0 (ip (nrows M) g (fst (apply (Datatypes.S k) (Datatypes.S k) 1 1 lvls scr g x))).
-Proof. exact (built_Vcycle_pd Sft Seqb Ord Habs2 kd ce dc ml sc ts M k). Qed.
+Proof. exact (built_Vcycle_pd Sft Seqb Ord Habs2 Hadj kd ce dc ml sc ts M k). Qed.
 Print Assumptions C02_built_vcycle_positive_definite.
 
 (* closed at Qc: the re-scaled Galerkin operator with s = 2/3 (over_interp = 1.5, amgcl's default for
@@ -1109,14 +1109,14 @@ Theorem C02_vcycle_positive_definite_rescaled_Qc (kd : @relax_kind QcS) k :
   olt s0 (ip 4 g (fst (apply (Datatypes.S k) (Datatypes.S k) 1 1 lvls scr g x))).
 Proof.
   intros Hk lvls scr g x Hs Lg Lx Hg.
-  apply (built_Vcycle_pd QcS_field QcS_eqb QcS_ordered QcS_abs2 kd 1 true 10 (Some (qc 2 3)) exTs exM k);
+  apply (built_Vcycle_pd QcS_field QcS_eqb QcS_ordered QcS_abs2 QcS_sadj_id kd 1 true 10 (Some (qc 2 3)) exTs exM k);
     try assumption.
   - vm_compute. reflexivity.
   - apply (sym_matb_ok QcS_eqb). vm_compute. reflexivity.
   - apply (ts_symb_ok QcS_eqb). vm_compute. reflexivity.
   - intros A HA. apply (solve_check_ok (amg_init 1 true 10 (coarse_op_of (Some (qc 2 3))) exTs exM)); [|exact HA].
     vm_compute. reflexivity.
-  - apply (descs_okb_ok QcS_field QcS_eqb QcS_ordered QcS_abs2).
+  - apply (descs_okb_ok QcS_field QcS_eqb QcS_ordered QcS_abs2 QcS_sadj_id).
     destruct Hk as [->|[->| ->]]; vm_compute; reflexivity.
   - destruct Hk as [->|[->| ->]]; cbn; [left; vm_compute; reflexivity|exact I|exact I].
   - exact I.
